@@ -75,9 +75,13 @@ pub fn run_c14(cx: &mut Cx) {
     if hidden.len() == n { cx.count("probe.all_hidden"); }
     let (k1, m1, h1) = (key.clone(), msgs.clone(), hidden.clone());
     let opts = StepOpts { eintr: if cx.ch.chance("eintr", 1, 6) { 1 } else { 0 }, short_reads: if cx.ch.chance("short", 1, 6) { 1 } else { 0 }, ..Default::default() };
-    cx.step(holder, "commit+prove", opts, move || holder_commit_and_prove(&k1, &m1, &h1, trusted), move |cx, st| {
+    // the trusted party's key may have fewer bases than the credential has attributes, as long as
+    // it covers the hidden positions (CL03CommitmentPublicKey::generate(None, None) has one base)
+    let tp: Option<zkryptium::cl03::keys::CL03CommitmentPublicKey> = if trusted { let mut t = key.tp_cpk.clone(); if cx.ch.chance("trusted_key_with_few_bases", 1, 3) { t.g_bases.truncate(hidden.iter().max().unwrap() + 1); cx.count("probe.trusted_party_key_with_fewer_bases_than_attributes"); } Some(t) } else { None };
+    let tp1 = tp.clone();
+    cx.step(holder, "commit+prove", opts, move || holder_commit_and_prove_with(&k1, &m1, &h1, tp1.as_ref()), move |cx, st| {
         let hc = match st.out { Ok(h) => h, Err(c) => { cx.violation("C14", "generate_proof/failed".into(), format!("n={n} hidden={hidden:?}: {c:?}")); return; } };
-        let req = IssueRequest { pk: key.pk.clone(), bases: key.bases.0[..n].to_vec(), tp_cpk: if trusted { Some(key.tp_cpk.clone()) } else { None }, c_value: hc.c_value.clone(), ct_value: hc.ct_value.clone(), zk_json: hc.zk_json.clone(), revealed: revealed.clone(), revealed_idx: revealed_idx.clone(), hidden: hidden.clone() };
+        let req = IssueRequest { pk: key.pk.clone(), bases: key.bases.0[..n].to_vec(), tp_cpk: tp.clone(), c_value: hc.c_value.clone(), ct_value: hc.ct_value.clone(), zk_json: hc.zk_json.clone(), revealed: revealed.clone(), revealed_idx: revealed_idx.clone(), hidden: hidden.clone() };
         // honest request: proof verifies, the issuer signs, the unblinded signature verifies
         deliver_request(cx, issuer, key.clone(), req.clone(), "none".into(), true);
         let (k2, r2) = (key.clone(), req.clone());
@@ -89,10 +93,13 @@ pub fn run_c14(cx: &mut Cx) {
                 Err(Crash::Panic(m)) => { cx.violation("C14", "blind_sign/honest-request-refused".into(), format!("n={n} hidden={:?} trusted={trusted}: {m}", req3.hidden)); return; }
                 Err(c) => { cx.violation("C14", "blind_sign/crash".into(), format!("{c:?}")); return; }
             };
-            if cx.ch.chance("restart_holder_before_unblind", 1, 3) { cx.restart(holder); }
+            // a holder crash between request and response: only what the wallet persisted survives
+            // (the commitment with its opening, as the library serializes it)
+            let from_store = cx.ch.chance("restart_holder_before_unblind", 1, 3);
+            if from_store { cx.restart(holder); cx.count("fault.restart_reload_commitment_from_store"); }
             let (k4, hc4, m4, bs4) = (key3.clone(), hc3.clone(), msgs3.clone(), bs_json.clone());
             let (key5, hc5, msgs5, req5, bs5) = (key3.clone(), hc3.clone(), msgs3.clone(), req3.clone(), bs_json.clone());
-            cx.step(holder, "unblind+verify", StepOpts::default(), move || holder_unblind(&k4, &bs4, &hc4, &m4), move |cx, st| {
+            cx.step(holder, "unblind+verify", StepOpts::default(), move || holder_unblind_via(&k4, &bs4, &hc4, &m4, from_store), move |cx, st| {
                 cx.eval(&[b"unblind", bs5.as_bytes()], true);
                 let sig = match st.out {
                     Ok(Ok((true, s))) => { cx.count("verdict.MustAccept.unblinded.accept"); s }
